@@ -350,6 +350,69 @@ int main(int argc, char** argv)
 
          L.rows.push_back(r);
       }
+      else if(t[0] == "RNG")
+      {
+         // the generator class alone: RNG <id> S<seed>|N ...   (one line per operation: members and the returned value)
+         Random g;
+         for(size_t k = 2; k < t.size(); k++)
+         {
+            double v = -1.0;
+            bool isnext = t[k] == "N";
+
+            if(isnext)
+               v = g.next();
+            else
+               g.setSeed((uint32_t) strtoul(t[k].c_str() + 1, nullptr, 10));
+
+            printf("R %s %d %u %u %u %u %u %s\n", t[1].c_str(), (int)(k - 2), g.seedshift, g.lin_seed, g.xor_seed, g.mwc_seed, g.cst_seed,
+                   isnext ? vf::dy(v).c_str() : "-");
+         }
+      }
+      else if(t[0] == "RNGS")
+      {
+         // the generator inside a solver object: RNGS <id> <seed> <n> <lo> <hi>: fresh, after setRandomSeed, after n draws from [lo,hi],
+         // in a copy-constructed and in an assigned object, after re-seeding through the settings parser
+         auto show = [&](const char* what, SP& s)
+         {
+            Random& g = s._solver.random;
+            printf("RS %s %s %u %u %u %u %u %u\n", t[1].c_str(), what, g.seedshift, g.lin_seed, g.xor_seed, g.mwc_seed, g.cst_seed, s.randomSeed());
+         };
+         unsigned seed = (unsigned) strtoul(t[2].c_str(), nullptr, 10);
+         int n = atoi(t[3].c_str());
+         double lo = vf::undy(t[4]), hi = vf::undy(t[5]);
+         SP a;
+         quiet(a);
+         show("fresh", a);
+         a.setRandomSeed(seed);
+         show("seeded", a);
+         bool inrange = true;
+
+         for(int k = 0; k < n; k++)
+         {
+            // the interval is proved in exact arithmetic (C17_rng_next_in_range); the two roundings of
+            // minimum * (1 - r) + maximum * r may leave it by a few units in the last place (seen with lo = hi = -1e300)
+            double v = a._solver.random.next(lo, hi);
+            double slack = 8 * 2.220446049250313e-16 * std::max(std::fabs(lo), std::fabs(hi));
+            inrange = inrange && v >= lo - slack && v <= hi + slack;
+         }
+
+         printf("RS %s inrange %d\n", t[1].c_str(), (int) inrange);
+         show("drawn", a);
+         {
+            SP b(a);
+            show("copy", b);
+            SP c;
+            quiet(c);
+            c.setRandomSeed(seed + 17);
+            (void) c._solver.random.next();
+            c = a;
+            show("assigned", c);
+            char buf[64];
+            snprintf(buf, sizeof(buf), "uint:random_seed = %u", seed);
+            c.parseSettingsString(buf);
+            show("parsed", c);
+         }
+      }
       else if(t[0] == "DET")
       {
          try
